@@ -28,7 +28,7 @@ QUICK = ["kundur/kundur_full.json", "ieee14/ieee14_full.xlsx", "ieee39/ieee39_fu
          "ieee14/ieee14_pvd1.json", "ieee14/ieee14_solar.xlsx", "wecc/wecc_full.xlsx", "ieee14/ieee14_zip.json", "kundur/kundur_vsc.xlsx",
          "ieee14/ieee14_esst3a.xlsx", "npcc/npcc.xlsx", "ieee14/ieee14_esdc1a.xlsx", "kundur/kundur_islands.json",
          "ieee14/ieee14_exac1.json", "ieee14/ieee14_esac1a.xlsx", "ieee14/ieee14_ac8b.xlsx", "ieee14/ieee14_esst1a.xlsx",
-         "kundur/kundur_ieeest.xlsx"]
+         "kundur/kundur_ieeest.xlsx", "kundur/kundur_ieeeg1.xlsx"]
 # cases whose controllers have iteratively initialised variables come first in the out-of-service variants
 ITER_INIT = ["ieee14/ieee14_exac1.json", "ieee14/ieee14_esac1a.xlsx", "ieee14/ieee14_ac8b.xlsx", "ieee14/ieee14_esst1a.xlsx"]
 
@@ -94,6 +94,18 @@ def run(tier):
         for mode in (1, 2, 3, 4, 5, 6):
             variants.append(dict(kind="stock", case=c, sid="stock[%s|IEEEST input mode %d]" % (c, mode), set_param=("IEEEST", "MODE", mode),
                                  baseline_ok=True, baseline_at_limit=at_limit[c], probes=False, flat=False))
+    # documented mode flags and limits that no shipped case uses: the alternative value on the first device of cases that initialise
+    FLAGVARS = {"ieee14/ieee14_solar.xlsx": [("REPCA1", "VCFlag", 0), ("REPCA1", "RefFlag", 0), ("REPCA1", "Fflag", 0), ("REECA1", "PFFLAG", 1),
+                                             ("REECA1", "VFLAG", 0), ("REECA1", "QFLAG", 0), ("REECA1", "PFLAG", 1), ("REECA1", "PQFLAG", 1),
+                                             ("REGCA1", "Lvplsw", 0)],
+                "kundur/kundur_ieeeg1.xlsx": [("IEEEG1", "PMAX", 1.0), ("IEEEG1", "PMAX", 1.5)],
+                "ieee14/ieee14_pvd1.json": [("PVD1", "pqflag", 0)]}
+    for c, lst in FLAGVARS.items():
+        if c not in good:
+            continue
+        for (m_, p_, v_) in lst:
+            variants.append(dict(kind="stock", case=c, sid="stock[%s|%s.%s=%s]" % (c, m_, p_, v_), set_param=(m_, p_, v_), baseline_ok=True,
+                                 baseline_at_limit=at_limit[c], probes=False, flat=True))
     vres = run_tasks("vh.initdrv:task", variants, nproc=NCPU, timeout=1200)
     tasks = tasks + variants
     res = res + vres
